@@ -236,6 +236,12 @@ class ClassRef:
         return f"ClassRef({self.name})"
 
 
+class DictView:
+    """obj.__dict__ of a modelled object: only whole-object copies (a.__dict__.update(b.__dict__)) are supported"""
+    def __init__(self, obj):
+        self.obj = obj
+
+
 class BoundMethod:
     def __init__(self, recv, name):
         self.recv = recv
